@@ -216,7 +216,7 @@ def _check_ops(ctx, rule, specs, acls, quals, cg=False):
         from ..model import AnalysisError
         raise AnalysisError(f"{rule}: {first_bad['uninterpretable'][0]}")
     for op, (msg, q) in sorted(first_bad.items()):
-        fn = repo.fn(q)
+        fn = repo.where(q)
         r.violation(rule, q, f"{quals}: {op}", msg, fn)
     if not first_bad:
         for nm in ("has_overlap", "intersection", "union", "minus"):
@@ -241,7 +241,10 @@ def r1_single_single(ctx):
     # comparison-only side condition for the comparison kernels (makes the enumeration a proof for all integers)
     for q in ("SingleInterval._has_overlap_single_interval", "SingleInterval._intersection_single_interval",
               "SingleInterval._union_single_interval"):
-        f = ctx.repo.fn(f"{LOC}:{q}")
+        f = ctx.repo.fn_opt(f"{LOC}:{q}")
+        if f is None:
+            ctx.r.note(f"C02.R1: private kernel {q} not found under that name; agreement shown on representatives only")
+            continue
         off = comparison_only(f.node, lambda d: d in ("self.start", "self.end", "other.start", "other.end"))
         if off:
             ctx.r.note(f"C02.R1: {f.qual} is not comparison-only ({off}); agreement shown on representatives only")
@@ -414,8 +417,8 @@ def r1c_compound_kernels(ctx):
         for fn in (f_init, f_isov, f_cont, f_opt, f_comb, f_gap, f_merge):
             r.ok("C02.R1c", fn.qual, "all order types of 2 (thorough: 3) blocks x strands", fn, f"{n} interpreted evaluations")
     # side condition for the merge predicate
-    cb = ctx.repo.fn(f"{LOC}:CompoundInterval._combine_blocks")
-    off = comparison_only(cb.node, lambda d: d in ("block_start", "block_end", "curr_start", "curr_end", "next_start", "next_end"))
+    cb = ctx.repo.fn_opt(f"{LOC}:CompoundInterval._combine_blocks")
+    off = comparison_only(cb.node, lambda d: d in ("block_start", "block_end", "curr_start", "curr_end", "next_start", "next_end")) if cb else None
     if off and "block_end - block_start" not in off:
         r.note(f"C02.R1c: _combine_blocks not comparison-only: {off}")
 
@@ -831,7 +834,7 @@ def r5_derived(ctx):
         from ..model import AnalysisError
         raise AnalysisError("C02.R5: " + [m for k, m in first.items() if k[1] == "uninterpretable"][0])
     for (q, key), msg in sorted(first.items()):
-        ctx.r.violation("C02.R5", q, key, msg, repo.fn(q))
+        ctx.r.violation("C02.R5", q, key, msg, repo.where(q))
     if not first:
         for cls in ("SingleInterval", "CompoundInterval"):
             for m in ("extend_absolute", "extend_relative", "shift_position", "reverse", "reverse_strand", "reset_strand", "distance_to"):
